@@ -25,7 +25,9 @@ RULE = ("one run = a history of 8-40 operations (proposal by a new/existing acto
         "and past the 60 s max age, drop_old, new system bounds incl. exclusion zones bigger than the inclusion range and "
         "None) on one Matryoshka, or the same through the real actor; values biased onto all interval end points +-1 W; "
         "non-trivial = at least one replacement or expiry or bounds change happened; distinct = abstract digest of the "
-        "operation sequence (kind, actor)")
+        "operation sequence (kind, actor)"
+        " Values also carry binary fractions of a watt; the actor variant runs the manager for battery, EV-charger"
+        " or PV pools and in 40% of runs proposes through a BatteryPool front-end.")
 QUICK_RUNS = 8000
 THOROUGH_RUNS = 500_000
 EXPECT_PROBES = ["replacement", "expiry", "bounds_change", "same_priority_actors", "exclusion_bigger_than_inclusion",
